@@ -158,6 +158,16 @@ def case_panel(rng, tier):
         return c.reject('%s in fint/kT: %s' % (type(e).__name__, str(e)[:100]))
     if rng.random() < 0.4:
         closed_path(c, rng, fint, size, wmask, t, amp, '')
+    # same state in another memory layout (column of a mode matrix, strided slice, list): same results, bit for bit
+    crep, rk = gen.vec_repr(rng, cvec, lists=False)
+    c.tag('repr:' + rk)
+    try:
+        f_rep = np.asarray(p.calc_fint(crep, silent=True, nx=nx, ny=ny, Fnxny=Farg))
+        k_rep = p.calc_kT(c=crep, silent=True, nx=nx, ny=ny, Fnxny=Farg).toarray()
+    except Exception as e:
+        return c.reject('%s for a %s amplitude vector: %s' % (type(e).__name__, rk, str(e)[:100]))
+    c.expect('fint independent of the memory layout of the state vector', np.array_equal(f_rep, fint(cvec)), rk)
+    c.expect('kT independent of the memory layout of the state vector', np.array_equal(k_rep, kT(cvec)), rk)
     # the discretised pair must be consistent for ANY Gauss order (not only exact ones)
     nx2, ny2 = orders(rng, p, False)
     c.desc.update(nx_inexact=nx2, ny_inexact=ny2)
